@@ -584,8 +584,9 @@ func (r *Renderer) renderLink(w util.BufWriter, source []byte, node ast.Node, en
 	n := node.(*ast.Link)
 	if entering {
 		_, _ = w.WriteString("<a href=\"")
-		if r.Unsafe || !IsDangerousURL(n.Destination) {
-			_, _ = w.Write(util.EscapeHTML(util.URLEscape(n.Destination, true)))
+		destination := util.URLEscape(n.Destination, true)
+		if r.Unsafe || !IsDangerousURL(destination) {
+			_, _ = w.Write(util.EscapeHTML(destination))
 		}
 		_ = w.WriteByte('"')
 		if n.Title != nil {
@@ -612,8 +613,9 @@ func (r *Renderer) renderImage(w util.BufWriter, source []byte, node ast.Node, e
 	}
 	n := node.(*ast.Image)
 	_, _ = w.WriteString("<img src=\"")
-	if r.Unsafe || !IsDangerousURL(n.Destination) {
-		_, _ = w.Write(util.EscapeHTML(util.URLEscape(n.Destination, true)))
+	destination := util.URLEscape(n.Destination, true)
+	if r.Unsafe || !IsDangerousURL(destination) {
+		_, _ = w.Write(util.EscapeHTML(destination))
 	}
 	_, _ = w.WriteString(`" alt="`)
 	r.renderTexts(w, source, n)
